@@ -592,7 +592,8 @@ func (c *compiler) buildLA(useTransitions, stats bool) {
 				return
 			}
 		}
-		log.Fatal("internal error")
+		// Note: the rule is not reducible in this state when its item was pruned by .greedy
+		// from one of the states on the way.
 	}
 
 	states := make([]int, 32)
